@@ -780,7 +780,7 @@ func enumC08(n int, seed int64, thorough bool) []func() []wcaseT {
 				base.Shape = pick(rnd, []string{"random", "mixed"})
 			}
 			base.Size = size
-			base.W = kz.Cfg{Transform: pair[0], Entropy: pair[1], Block: B, Jobs: uint(1 + rnd.Intn(4)), Ck: pick(rnd, []uint{0, 32}), Hint: -1}
+			base.W = kz.Cfg{Transform: pair[0], Entropy: pair[1], Block: B, Jobs: uint(1 + rnd.Intn(4)), Ck: pick(rnd, []uint{0, 32}), Hint: -1, Headerless: g%3 == 1}
 			base.RJobs = 2
 			base.Parts = pick(rnd, [][]int{nil, {100000}, {65536}, {30000, 77777}})
 			data := gen.Make(base.Shape, base.Seed, size)
